@@ -101,6 +101,21 @@ def noiseless_part(rep, rng, drv, QD, n_cases, replay):
                 rep.violate(what="a documented method raised on an input of the property's domain", error=repr(e), input=inp,
                             call="QuadraticDistribution")
                 continue
+        # shapes and memory layouts of ns (C.shape_probe): result[idx] is the curve at ns[idx]
+        if ci % 6 == 0:
+            grid = [1.0, 2.0, 3.5, 10.0, 0.5, 100.0, 7.25, 1.5, 40.0, 2.0, 5.0, 999.0]
+            for nm_, fn_ in (("quantile_tuning_curve", lambda x_: d.quantile_tuning_curve(x_, q=q, minimize=mn)),
+                             ("average_tuning_curve", lambda x_: d.average_tuning_curve(x_, minimize=mn))):
+                rep.count("noiseless:layout_probe:" + nm_)
+                try:
+                    with warnings.catch_warnings():
+                        warnings.simplefilter("ignore")
+                        fails = C.shape_probe(fn_, grid)
+                except Exception as e:  # noqa: BLE001
+                    fails = [("?", "raised " + repr(e))]
+                for sh_, msg_ in fails[:1]:
+                    rep.violate(what=f"{nm_}: {msg_} (scalars must map to scalars, arrays to arrays of the same shape, element by element)",
+                                input=dict(inp, ns=grid), shape=list(sh_) if sh_ != "?" else None, call="QuadraticDistribution." + nm_)
         # shapes; minimize=None decision
         if np.shape(qt) != (len(ns),) or np.shape(av) != (len(ns),) or not np.isscalar(qt_s) or not np.isscalar(av_s):
             rep.violate(what="tuning curves do not map arrays to arrays of the same shape / scalars to scalars", input=inp,
